@@ -149,7 +149,7 @@ func checkC06(c *km.Ctx) {
 		if !strings.HasPrefix(km.FuncFull(rt.Handler), "(*"+KMD) && !strings.HasPrefix(km.FuncFull(rt.Handler), KMD) {
 			continue
 		}
-		hname := rt.Handler.Name()
+		hname := km.NameOf(rt.Handler)
 		kind := "auth"
 		if k, ok := routeKinds[hname]; ok {
 			kind = k.kind
@@ -397,8 +397,8 @@ func checkMasks(c *km.Ctx, s *km.Sem, checkAuth *ssa.Function) {
 		}
 		sort.Strings(masks)
 		got := strings.Join(masks, " , ")
-		want, known := reviewedRouteMasks[rt.Handler.Name()]
-		req := "masks reachable from " + rt.Handler.Name() + " = " + want
+		want, known := reviewedRouteMasks[km.NameOf(rt.Handler)]
+		req := "masks reachable from " + km.NameOf(rt.Handler) + " = " + want
 		if !known {
 			req = "handler not in the reviewed mask table: a new credential consumer must be reviewed (default WEBUI)"
 			want = "WEBUI"
